@@ -28,6 +28,45 @@
 # endif
 #endif
 
+#ifdef MUSCLE_VERIF_HOOKS
+# ifndef MUSCLE_VERIF_HOOKS_DECLARED
+#  define MUSCLE_VERIF_HOOKS_DECLARED
+// Verification hooks: add-only, compiled only with -DMUSCLE_VERIF_HOOKS (this same block is repeated,
+// under this include-guard, in every hooked header).  A controlled scheduler (verification harness) may
+// install ONE callback through muscle_verif_hook_ref(); while none is installed every hook is a
+// load-and-test of a NULL pointer and the code behaves exactly as it does without the guard.
+enum {
+   MUSCLE_VERIF_MUTEX_LOCK = 1,   // Mutex::LockAux(), before the native lock is taken         (obj = the Mutex)
+   MUSCLE_VERIF_MUTEX_TRYLOCK,    // Mutex::TryLockAux(), before the native try-lock; result MUSCLE_VERIF_FAIL = "held by another thread"
+   MUSCLE_VERIF_MUTEX_UNLOCK,     // Mutex::UnlockAux(), after the native lock was released
+   MUSCLE_VERIF_WC_WAIT,          // WaitCondition::Wait() without a timeout   (obj = the WaitCondition, arg = &_pendingNotificationsCount)
+   MUSCLE_VERIF_WC_TIMEDWAIT,     // WaitCondition::Wait() with a timeout      (same arguments)
+   MUSCLE_VERIF_WC_NOTIFY,        // WaitCondition::Notify(), before the counter is increased  (arg = &increaseBy)
+   MUSCLE_VERIF_ATOMIC_INC,       // AtomicCounter::AtomicIncrement(), before the increment    (obj = the AtomicCounter)
+   MUSCLE_VERIF_ATOMIC_DEC,       // AtomicCounter::AtomicDecrement(), before the decrement
+   MUSCLE_VERIF_ATOMIC_CAS,       // AtomicCounter::ConditionalSetCount(), before the compare-and-swap
+   MUSCLE_VERIF_THREAD_SPAWN,     // (reserved for system/Thread.cpp) parent, before the native thread is created   (obj = the Thread)
+   MUSCLE_VERIF_THREAD_SPAWNED,   // (reserved) parent, after the native thread was created
+   MUSCLE_VERIF_THREAD_START,     // (reserved) child, first thing in its entry function
+   MUSCLE_VERIF_THREAD_EXIT,      // (reserved) child, last thing in its entry function
+   MUSCLE_VERIF_THREAD_JOIN,      // (reserved) parent, before the native join
+   MUSCLE_VERIF_SEM_POST,         // (reserved) a signal that a blocking wait consumes, eg a byte written to a signalling socket (obj = the channel)
+   MUSCLE_VERIF_SEM_WAIT,         // (reserved) untimed blocking wait for such a signal; drains it
+   MUSCLE_VERIF_SEM_TIMEDWAIT,    // (reserved) timed blocking wait for such a signal; result MUSCLE_VERIF_FAIL = "timed out"
+   MUSCLE_VERIF_USER = 100        // first kind free for harness-defined yield points
+};
+enum {
+   MUSCLE_VERIF_PROCEED = 0,      // carry on with the normal code (always the result when no callback is installed)
+   MUSCLE_VERIF_FAIL    = 1,      // try-lock: the lock is held by another thread; wait: the scheduler fired the timeout
+   MUSCLE_VERIF_GRANTED = 2       // wait: the notification counter is positive, consume it without blocking
+};
+typedef int (*muscle_verif_hook_t)(int kind, const void * obj, const void * arg);
+inline muscle_verif_hook_t & muscle_verif_hook_ref() {static muscle_verif_hook_t f = 0; return f;}  // one instance per program (inline function, local static)
+#  define MUSCLE_VERIF_HOOK(kind, obj, arg) (muscle_verif_hook_ref() ? muscle_verif_hook_ref()((kind), (obj), (arg)) : MUSCLE_VERIF_PROCEED)
+#  define MUSCLE_VERIF_YIELD(kind, obj)     ((void) MUSCLE_VERIF_HOOK((kind), (obj), 0))
+# endif
+#endif
+
 namespace muscle {
 
 #if defined(MUSCLE_USE_MUTEXES_FOR_ATOMIC_OPERATIONS)
@@ -73,6 +112,9 @@ public:
      */
    MUSCLE_NODISCARD inline bool AtomicIncrement()
    {
+#ifdef MUSCLE_VERIF_HOOKS
+      MUSCLE_VERIF_YIELD(MUSCLE_VERIF_ATOMIC_INC, this);
+#endif
 #if defined(MUSCLE_SINGLE_THREAD_ONLY) || !defined(MUSCLE_AVOID_CPLUSPLUS11)
       return (++_count == 1);
 #elif defined(MUSCLE_USE_MUTEXES_FOR_ATOMIC_OPERATIONS)
@@ -112,6 +154,9 @@ public:
      */
    MUSCLE_NODISCARD inline bool AtomicDecrement()
    {
+#ifdef MUSCLE_VERIF_HOOKS
+      MUSCLE_VERIF_YIELD(MUSCLE_VERIF_ATOMIC_DEC, this);
+#endif
 #if defined(MUSCLE_SINGLE_THREAD_ONLY) || !defined(MUSCLE_AVOID_CPLUSPLUS11)
       return (--_count == 0);
 #elif defined(MUSCLE_USE_MUTEXES_FOR_ATOMIC_OPERATIONS)
@@ -161,6 +206,9 @@ public:
      */
    status_t ConditionalSetCount(int32 fromOldValue, int32 toNewValue)
    {
+#ifdef MUSCLE_VERIF_HOOKS
+      MUSCLE_VERIF_YIELD(MUSCLE_VERIF_ATOMIC_CAS, this);
+#endif
 #if defined(MUSCLE_SINGLE_THREAD_ONLY)
       return NonAtomicConditionalSetCount(fromOldValue, toNewValue);
 #elif defined(MUSCLE_USE_MUTEXES_FOR_ATOMIC_OPERATIONS)
